@@ -57,6 +57,7 @@ func init() {
 // ---------------------------------------------------------------- batches
 
 type c07Batch struct {
+	ZeroRows   bool // an ordinary batch with the schema and no rows
 	Wrapped    bool
 	Unreadable bool
 	Inner      *c07Batch
@@ -78,6 +79,12 @@ func c07ParseBatch(toks []string) (*c07Batch, []string, error) {
 			return nil, nil, err
 		}
 		return &c07Batch{Wrapped: true, Inner: in}, r, nil
+	case "Z":
+		fs, r, err := c07ParseAFs(toks[1:])
+		if err != nil {
+			return nil, nil, err
+		}
+		return &c07Batch{ZeroRows: true, Fields: fs}, r, nil
 	case "P":
 		fs, r, err := c07ParseAFs(toks[1:])
 		if err != nil {
@@ -94,6 +101,9 @@ func (b *c07Batch) tokens() []string {
 			return []string{"W", "-"}
 		}
 		return append([]string{"W"}, b.Inner.tokens()...)
+	}
+	if b.ZeroRows {
+		return append([]string{"Z"}, c07FieldsTokens(b.Fields)...)
 	}
 	return append(append([]string{"P"}, c07FieldsTokens(b.Fields)...), b.Cells...)
 }
@@ -112,7 +122,19 @@ func (b *c07Batch) core() *c07Batch {
 // build makes the arrow batch (caller releases).
 func (b *c07Batch) build() (arrow.RecordBatch, error) {
 	if !b.Wrapped {
-		return c08BuildBatch(arrow.NewSchema(c07FieldsToArrow(b.Fields), nil), b.Cells)
+		schema := arrow.NewSchema(c07FieldsToArrow(b.Fields), nil)
+		if b.ZeroRows {
+			rb := array.NewRecordBuilder(memory.DefaultAllocator, schema)
+			defer rb.Release()
+			return rb.NewRecordBatch(), nil
+		}
+		if len(b.Fields) == 0 { // the bare, column-less batch of a parameterless call: one row, no column
+			if len(b.Cells) != 0 {
+				return nil, fmt.Errorf("cells for a column-less batch")
+			}
+			return array.NewRecordBatch(schema, nil, 1), nil
+		}
+		return c08BuildBatch(schema, b.Cells)
 	}
 	var payload []byte
 	if b.Unreadable {
@@ -261,7 +283,13 @@ func c07ExecLine(c *Case, l string, f []string) {
 	if !ran && errKind != "TypeError" {
 		c.Oracle("refusal-is-not-a-typeerror", fmt.Sprintf("%s: answered %q", l, errKind))
 	}
-	if equal {
+	if equal && core.ZeroRows && docS != "" {
+		// no row 0: nothing can be bound, so only a struct without tagged fields may run
+		c.Stat("zero-row-equal-schema")
+		if ran {
+			c.Oracle("ran-without-a-row", fmt.Sprintf("%s: bound %s", l, c08Show(ty, got)))
+		}
+	} else if equal {
 		c.Stat("schema-equal")
 		want, reject, ok := c07ExpectRow(ty, core.Cells)
 		switch {
@@ -808,10 +836,18 @@ func c07Gen(g *Gen) {
 	empty := c07EmptyStream()
 	for i, n := 0, g.N(1800, 60000); i < n; i++ {
 		st, _ := tg.structTy(r.Range(0, 2), r.Range(1, 5))
-		if r.Chance(8) { // the odd type the derivation refuses
+		noParams := r.Chance(7)
+		if noParams { // a parameterless method: no field at all, or only fields without a vgirpc tag
+			st = c08St()
+			for k, m := 0, r.Intn(3); k < m; k++ {
+				pt, _ := tg.plain(0)
+				st.Fields = append(st.Fields, c08Field{Tag: Pick(r, []string{"", "-"}), T: pt})
+			}
+		}
+		if !noParams && r.Chance(8) { // the odd type the derivation refuses
 			st.Fields = append(st.Fields, c08Field{Tag: "bad", T: c08Ptr(c08Ptr(c08Leaf("i32")))})
 		}
-		if r.Chance(12) { // a binary column named "request" that is NOT alone: must not be unwrapped
+		if !noParams && r.Chance(12) { // a binary column named "request" that is NOT alone: must not be unwrapped
 			f := c08Field{Tag: "request", T: c08Leaf("bytes")}
 			if r.Bool() {
 				st.Fields = append([]c08Field{f}, st.Fields...)
@@ -819,7 +855,7 @@ func c07Gen(g *Gen) {
 				st.Fields = append(st.Fields, f)
 			}
 		}
-		if r.Chance(18) { // a dictionary-encoded (enum) parameter, by value or by pointer
+		if !noParams && r.Chance(18) { // a dictionary-encoded (enum) parameter, by value or by pointer
 			ft := c08Leaf("str")
 			if r.Bool() {
 				ft = c08Ptr(ft)
@@ -850,8 +886,19 @@ func c07Gen(g *Gen) {
 			default:
 				fs = c07PerturbFields(r, fs, false)
 			}
+			if noParams { // empty schema, or widened by 1..3 columns
+				fs = nil
+				for w, nw := 0, Pick(r, []int{0, 0, 1, 1, 2, 3}); w < nw; w++ {
+					fs = append(fs, c07AF{Name: Pick(r, []string{"extra", "x", "a", "request", "v"}) + strings.Repeat("_", w), Nullable: r.Bool(), T: &c07AT{K: Pick(r, c07LeafPool)}})
+				}
+			}
 			b := &c07Batch{Fields: fs, Cells: c07GenRow(r, fs)}
+			zero := false
+			if r.Chance(noParamsPct(noParams)) { // no rows: bind lines only (ReadRequest has its own row-count rule)
+				b, zero = &c07Batch{ZeroRows: true, Fields: fs}, true
+			}
 			switch x := r.Intn(100); {
+			case zero:
 			case x < 8:
 				b = &c07Batch{Wrapped: true, Inner: b}
 				if r.Chance(20) {
@@ -866,11 +913,18 @@ func c07Gen(g *Gen) {
 				b = &c07Batch{Wrapped: true, Inner: &c07Batch{Wrapped: true, Unreadable: true}}
 			}
 			op := "bind"
-			if r.Chance(30) {
+			if r.Chance(30) && !zero {
 				op = "call"
 			}
 			lines = append(lines, op+" "+tyToks+" | "+strings.Join(b.tokens(), " "))
 		}
 		g.Case(lines...)
 	}
+}
+
+func noParamsPct(noParams bool) int {
+	if noParams {
+		return 35
+	}
+	return 5
 }
